@@ -295,7 +295,7 @@ func mapAttributeValueToTypes(attrs map[string]*dynamodb.AttributeValue) map[str
 			M:    mapAttributeValueToTypes(attr.M),
 			N:    cloneString(attr.N),
 			NS:   cloneStrings(attr.NS),
-			NULL: cloneBool(attr.NULL),
+			NULL: cloneNull(attr.NULL),
 			S:    cloneString(attr.S),
 			SS:   cloneStrings(attr.SS),
 		}
@@ -324,7 +324,7 @@ func mapAttributeValueListToTypes(attrs []*dynamodb.AttributeValue) []*types.Ite
 			M:    mapAttributeValueToTypes(attr.M),
 			N:    cloneString(attr.N),
 			NS:   cloneStrings(attr.NS),
-			NULL: cloneBool(attr.NULL),
+			NULL: cloneNull(attr.NULL),
 			S:    cloneString(attr.S),
 			SS:   cloneStrings(attr.SS),
 		}
@@ -412,6 +412,17 @@ func cloneBool(b *bool) *bool {
 	}
 
 	c := *b
+
+	return &c
+}
+
+// cloneNull maps the NULL flag of a request value: as in the SDK v2 client, a NULL attribute is NULL whatever the flag says
+func cloneNull(b *bool) *bool {
+	if b == nil {
+		return nil
+	}
+
+	c := true
 
 	return &c
 }
